@@ -1,7 +1,7 @@
 (* Extract.v — extraction of the executable model to OCaml.
    Directives: only those of ExtrOcamlBasic (bool, option, unit, prod, list,
    sumbool, sumor -> native OCaml types).  positive/N/Z/nat stay Coq inductives. *)
-From PauLie Require Import Pauli Matrix Sym ClosureN LieInv Star Validator Member.
+From PauLie Require Import Pauli Matrix Sym ClosureN LieInv Star Validator Member Collection.
 Require Extraction ExtrOcamlBasic.
 Extraction Language OCaml.
 Extraction "oracle.ml"
@@ -11,4 +11,5 @@ Extraction "oracle.ml"
   lie_inv gen_components_strs
   algprops algprops_old algebra_terms dla_dim dla_dim_old name_dim2
   reduction_check_strs shape_acct_strs
-  member_strs space_strs.
+  member_strs space_strs
+  mk run.
